@@ -15,8 +15,8 @@ claimed = {
          "The lexer's dispatch tables (name normalisation, type, attribute introducers, event keys, priority/alert words) equal the documented grammar for every byte value; name/value/rate stores are dominated by their well-formedness guards (non-empty name, ParseFloat ok, not NaN, rate > 0 and finite); tags are non-empty and delimiter-free by construction; accept exits and the transition relation are the documented chain; Run re-initialises every per-line field.",
          "does not decide acceptance of exactly the grammar on all strings (offset arithmetic); documented tables are frozen in checker/c02.go; anchors by state-function name."),
  'C03': ("panic-obligation enumeration over the ingestion call-graph scope + abstract interpretation with a relational numeric domain queried at obligation points: wrap-aware linearisation of SSA definitions, dominating branch facts, length facts, memory versioning, Houdini loop invariants, join case-splitting, library models and named lemmas, decided by Fourier-Motzkin refutation; plus HTTP status path counting",
-         "Every index / slice / make / unchecked assertion / integer division / nested-map write / explicit abort reachable from the receiver, parser (lexer states, synchronous handler chain) and the two HTTP handlers is discharged or the check fails; header lengths are compared after widening; each request path writes exactly one status. Assumptions (lexer object invariant with its witnesses, line <= 65535 bytes, library contracts, configuration >= 1) are listed in the evidence.",
-         "nil dereferences, closed-channel sends, memory exhaustion and liveness are not covered; third-party code trusted; the lexer invariant is assumed at entries/loop heads/after helper calls (Stage A) with establishment and preservation witnesses."),
+         "Every index / slice / make / unchecked assertion / integer division / nested-map write / explicit abort reachable from the receiver, parser (lexer states, synchronous handler chain) and the two HTTP handlers is discharged or the check fails; header lengths are compared after widening; each request path writes exactly one status; a library result that comes with an error is used only after the error test; every Set built on an ingestion path has a member map. Assumptions (lexer object invariant with its witnesses, line <= 65535 bytes, library contracts, configuration >= 1) are listed in the evidence.",
+         "nil dereferences other than the two enumerated kinds (library results before their error test, unpopulated pointer batches), closed-channel sends, memory exhaustion and liveness are not covered; third-party code trusted; the lexer invariant is assumed at entries/loop heads/after helper calls (Stage A) with establishment and preservation witnesses."),
  'C04': ("the same obligation engine (linear facts + Fourier-Motzkin + Houdini invariants + preconditions checked at call sites) over the flush scope: aggregator Flush/Process/Reset, histogram helpers, flusher, all nine backends' SendMetricsAsync and everything they call in the module",
          "All 120+ panic obligations of the flush path are discharged for every configuration in the quantifier (|p| <= 100 as lemma L1, histogram limit >= 0, persisted idle series via 'len >= 0 unless guarded'); preconditions such as 'bucket map non-empty' are proved at every call site.",
          "third-party encoders trusted; nil dereferences not enumerated; numerical results not decided; lemma L11 (+Inf bucket present and last) is a stated data-structure lemma."),
@@ -31,7 +31,7 @@ claimed = {
          "conservation under concurrency as a history property is not decided; HTTP client behaviour trusted."),
  'C16': ("linear (exactly-once) use analysis of the completion callback across closures, goroutines and channel moves + typestate of the sender's held stream + WaitGroup balance + semaphore pairing",
          "For each of the 9 Backend implementations the callback is consumed exactly once on every control path; the socket sender drops a stream right after completing it and completes held/queued streams at shutdown; the flusher adds len(backends) and each callback does exactly one Done; HTTP collectors pass every result and the cancellation error to the callback; request slots are released on every path.",
-         "timing and 'the right error' are not decided; the nil-channel select idiom in sender.Run is trusted."),
+         "timing and 'the right error' are not decided; sender.Run's nil-channel select idiom is decided since defects D9 / D10 (held stream not overwritten, stale cancellation channel cleared)."),
  'C20': ("typestate automaton over the heartbeat loop + per-split notification counting + wiring/value-identity checks across manager, telemetry server, coordinator and forwarder",
          "No path of the heartbeat reaches GET /next without a WaitForFlush since the last request, after an initial Flush; the forwarder posts before notifying with exactly one notification per request; WaitForFlush is a plain blocking receive; runtimeDone records trigger the coordinator's Flush; one coordinator instance is shared; manual mode disables timer flushing; start-up failure reaches init-error.",
          "HTTP completion on the wire and AWS's delivery of runtimeDone are outside the code."),
